@@ -5,10 +5,19 @@ buffering), initial destination / part file, the with-block (a script of write /
 on the file object, ending normally or by raising one of several exception kinds) and a *plan*
 (which instrumented call fails with which errno or with which non-OSError exception class, or
 before which call the destination appears), followed by an immediate fault-free retry (on a fresh
-saver, or on the SAME AtomicSaver instance).  The same case is run by the Lean model (C05.runSave
-on the abstract file system); exception class / errno, destination bytes + mode, part file bytes +
-mode, directory listing, number of calls made and the outcome of the retry are compared.  The
-oracle restates C05 on the real outcome.
+saver, or on the SAME AtomicSaver instance).
+
+Tie = ACCEPTANCE (round 3): the calls the real code makes are recorded and classified by their EFFECT
+(create-part-exclusive, chmod of the part file by path or descriptor, write/flush/fsync/close,
+rename-or-replace onto the destination, link, unlink of the part file; probes and fdopen have no
+effect; a call that reported an error is recorded as such, with "is it one of the steps the property
+lists").  The observed trace of the save and of the retry goes to the Lean driver, which evaluates the
+decidable predicate `C05.Accept` on it (the predicate the `accepted_*` theorems are about) and replays
+it on the abstract file system; the replayed destination / part file must equal the real ones.  Which
+calls the implementation uses, how many probes it makes and in which order it sets things up is free.
+The transliteration `runScript` is still run on every case (driver command REF) and compared
+field by field, but only as a statistic (`ref_model:*` in the histogram), never as an alarm.
+The oracle restates C05 on the real outcome.
 """
 import errno
 import itertools
@@ -17,7 +26,7 @@ import shutil
 import stat
 import tempfile
 
-from bv.common import Property, Failure, time_limit, exc_name, CaseTimeout
+from bv.common import Property, Failure, time_limit, exc_name, CaseTimeout, Driver
 from bv.props.fsspy import Spy, ENV_BYTES, ENV_MODE
 
 DEST = 'dest.txt'
@@ -30,12 +39,17 @@ SITE_ERRNO = {
     'os.stat': errno.EACCES, 'os.open': errno.ENOSPC, 'os.fdopen': errno.ENOMEM, 'os.chmod': errno.EPERM,
     'file.write': errno.ENOSPC, 'file.flush': errno.ENOSPC, 'os.fsync': errno.EIO, 'file.close': errno.ENOSPC,
     'os.rename': errno.EXDEV, 'os.link': errno.EEXIST, 'os.unlink': errno.EPERM, 'os.close': errno.EIO,
+    # the same steps under their other names
+    'os.replace': errno.EXDEV, 'os.fchmod': errno.EPERM, 'os.remove': errno.EPERM, 'open': errno.ENOSPC,
+    'os.fdatasync': errno.EIO, 'os.lstat': errno.EACCES,
 }
 ALT_ERRNO = {'os.open': errno.EEXIST, 'os.link': errno.EMLINK, 'os.rename': errno.EACCES, 'file.write': errno.EIO,
-             'os.stat': errno.EIO, 'os.chmod': errno.EROFS}
+             'os.stat': errno.EIO, 'os.chmod': errno.EROFS, 'os.replace': errno.EACCES, 'os.fchmod': errno.EROFS,
+             'open': errno.EEXIST}
 # the steps named by the property statement ("creating or chmod-ing the part file, write, flush, fsync, close, link/rename")
-LISTED_STEPS = {'os.open', 'os.fdopen', 'os.chmod', 'file.write', 'file.flush', 'os.fsync', 'file.close',
-                'os.rename', 'os.replace', 'os.link', 'open'}
+LISTED_STEPS = {'os.open', 'os.fdopen', 'os.chmod', 'os.fchmod', 'file.write', 'file.writelines', 'file.flush', 'os.fsync',
+                'os.fdatasync', 'file.close', 'os.rename', 'os.replace', 'os.link', 'open'}
+UNLINK_CALLS = {'os.unlink', 'os.remove'}
 
 # A plan action >= 1000 makes the call raise an exception that is NOT an errno-carrying OSError.  The Lean
 # model treats an error as an opaque number (`Errno = Nat`), exactly as the code must (`except Exception`):
@@ -120,9 +134,18 @@ def rm_scratch(d):
 
 
 class Spy5(Spy):
-    """fsspy.Spy + plan actions >= 1000: the call raises the exception class EXC_CODES[action]"""
+    """fsspy.Spy + plan actions >= 1000: the call raises the exception class EXC_CODES[action]; the bytes of
+    every write call are kept (the abstract file system needs them)"""
 
     def counted(self, name, real, args, kwargs, paths, size=None, still=None):
+        n0 = len(self.log)
+        try:
+            return self._counted(name, real, args, kwargs, paths, size, still)
+        finally:
+            if name in ('file.write', 'file.writelines') and len(self.log) > n0 and args:
+                self.log[n0]['data'] = _hexdata(args[0])
+
+    def _counted(self, name, real, args, kwargs, paths, size=None, still=None):
         act = self.plan.get(self.n)
         if isinstance(act, int) and act >= 1000:
             idx = self.n
@@ -141,6 +164,43 @@ class Spy5(Spy):
             raise make_exc(act)
         return Spy.counted(self, name, real, args, kwargs, paths, size=size, still=still)
 
+    def observations(self):
+        """the observed trace in the vocabulary of C05.Obs (lean/BoltonsVerif/C05/Accept.lean): one token per
+        counted call, classified by its effect (fsspy.Spy._event); `A` = the other process created the destination"""
+        out = []
+        for rec in self.log:
+            if rec['i'] is None:
+                continue                       # probes that cannot fail (lexists ...): not part of the trace
+            if rec.get('appeared'):
+                out.append('A')
+            if rec['ok']:
+                tok = self._event(rec)
+                if tok[0] in 'wW' and tok[1:].isdigit():
+                    tok = tok[0] + (rec.get('data') or '')
+                out.append(tok)
+                continue
+            listed = rec['call'] in LISTED_STEPS
+            if (rec['call'] == 'file.close' and rec.get('performed') and not rec.get('was_closed')
+                    and rec.get('wr') and self.role(rec['paths'][0]) == 'part'):
+                out.append('X%d' % listed)     # a failing close() that closed all the same
+            else:
+                out.append('F%d%d%d' % (listed, bool(rec.get('injected')), rec['call'] in UNLINK_CALLS))
+        return out
+
+
+def _hexdata(x):
+    try:
+        if isinstance(x, (list, tuple)):
+            return ''.join(_hexdata(y) for y in x)
+        if isinstance(x, str):
+            try:
+                return x.encode('latin-1').hex()
+            except UnicodeEncodeError:
+                return x.encode('utf-8').hex()
+        return bytes(x).hex()
+    except Exception:
+        return ''
+
 
 def ops_of(case):
     """the with-block's script: 'w<hex>' = f.write(bytes), 'f' = f.flush(), 'c' = f.close()"""
@@ -157,7 +217,6 @@ class C05(Property):
     PID = 'C05'
     QUICK_BUDGET_S = 75
     THOROUGH_BUDGET_S = 700
-    MODEL_OPS = True     # flush()/close() calls of the with-block are inside the Lean model
     RULE = ('a case is one whole save in a scratch directory: flags (overwrite, overwrite_part, rm_part_on_exc, '
             'text_mode) x file_perms {None,0600,0644; 0, sticky on sub-families} x umask {022,077,000} x destination {absent, 0644, 0600} x '
             'part file {absent, present} x with-block (a script of write/flush/close calls on the file object - 0/1/2 writes, '
@@ -181,7 +240,8 @@ class C05(Property):
                    'the scratch directory is made on a memory-backed file system (/dev/shm) when one passes a probe '
                    '(hard links, rename, permission bits), else in the default temporary directory',
                    'POSIX branch of atomic_rename/replace (os.name != "nt")']
-    CORRESPONDENCE_NAME = 'C05.Driver (runSave on the abstract FS) vs boltons.fileutils.atomic_save on a real scratch directory'
+    CORRESPONDENCE_NAME = ('C05.Driver: C05.Accept (acceptance automaton + end conditions) on the trace observed on boltons.fileutils.atomic_save '
+                           'in a real scratch directory, and C05.replay of that trace on the abstract FS vs the real destination / part file')
 
     # ------------------------------------------------------------------ translator hook
     def regen(self):
@@ -400,34 +460,77 @@ class C05(Property):
                 c['reuse'] = 2 if (c['rm'] and c['part'] is None and rng.random() < 0.5) else 1
             yield c
 
-    # ------------------------------------------------------------------ model line
-    def line(self, case):
+    # ------------------------------------------------------------------ model line: the OBSERVED trace
+    def in_model(self, case):
         if case.get('chdir'):
-            return None     # process-level cwd is not part of the model
+            return False    # process-level cwd is not part of the model
         if case['txt'] and case.get('buf') == 0:
-            return None     # Python itself refuses unbuffered text I/O (os.fdopen raises ValueError): oracle only
-        ops = ops_of(case)
-        if not self.MODEL_OPS and any(op[0] != 'w' for op in ops):
-            return None
-        # an injected ENOENT at os.stat is outside the harness's fault vocabulary (it is not a failure)
+            return False    # Python itself refuses unbuffered text I/O (os.fdopen raises ValueError): oracle only
+        return True
+
+    @staticmethod
+    def _head(case):
         def f(x):
             return '-' if x is None else '%d:%s' % (x[0], x[1])
+        return ['%d%d%d%d' % (case['ow'], case['owp'], case['rm'], case['txt']),
+                '-' if case['perms'] is None else str(case['perms']), str(case['umask']),
+                f(case['dest']), f(case['part']), str(1 if case['raises'] else 0)]
+
+    def line(self, case):
+        if not self.in_model(case):
+            return None
+        k = self.key(case)
+        cache = self.__dict__.setdefault('_obs_cache', {})
+        obs = cache.pop(k, None)
+        if obs is None:
+            obs = self.run_case(case)
+        if len(cache) > 2000:
+            cache.clear()
+        # the transliteration on the same case (statistics only): queried in one batch at the next render()
+        ops = ops_of(case)
         toks = [op[1:] if op[0] == 'w' else op.upper() for op in ops]
-        return ' '.join([
-            '%d%d%d%d' % (case['ow'], case['owp'], case['rm'], case['txt']),
-            '-' if case['perms'] is None else str(case['perms']), str(case['umask']),
-            f(case['dest']), f(case['part']), str(1 if case['raises'] else 0),
-            ','.join(toks) or '-',
-            ','.join('%d:%s' % (k, a) for k, a in case['plan']) or '-'])
+        ref = ' '.join(['REF'] + self._head(case) + [','.join(toks) or '-',
+                                                    ','.join('%d:%s' % (kk, a) for kk, a in case['plan']) or '-'])
+        self.__dict__.setdefault('_ref_pending', []).append((ref, self.render_ref(obs)))
+        o1, o2 = obs['first'], obs['retry']
+        return ' '.join(self._head(case) + [
+            new_hex(case),
+            str(int(o1['out'] == 'ok')), ','.join(o1.get('trace') or []) or '-',
+            str(int(o2['out'] == 'ok')), ','.join(o2.get('trace') or []) or '-'])
+
+    def flush_ref(self):
+        pend = self.__dict__.get('_ref_pending')
+        if not pend:
+            return
+        self._ref_pending = []
+        st = self.stats
+        try:
+            drv = self.__dict__.get('_ref_driver')
+            if drv is None:
+                drv = self._ref_driver = Driver(self.PID)
+            outs = drv.query([r for r, _ in pend])
+        except Exception as e:      # statistics only: never an infrastructure error of the check
+            st['ref_model:not-run'] = st.get('ref_model:not-run', 0) + len(pend)
+            st.setdefault('ref_model:error', repr(e)[:200])
+            return
+        for (ref, mine), out in zip(pend, outs):
+            if out == mine:
+                st['ref_model:exact-agreement'] = st.get('ref_model:exact-agreement', 0) + 1
+            else:
+                st['ref_model:differs'] = st.get('ref_model:differs', 0) + 1
+                st.setdefault('ref_model:first-difference', '%s | impl %s | runScript %s' % (ref, mine, out))
 
     # ------------------------------------------------------------------ implementation
     def impl(self, case):
         memo = self.__dict__.get('_memo')
+        obs = None
         if memo:
             obs = memo.pop(self.key(case), None)
-            if obs is not None:
-                return obs
-        return self.run_case(case)
+        if obs is None:
+            obs = self.run_case(case)
+        if self.in_model(case):
+            self.__dict__.setdefault('_obs_cache', {})[self.key(case)] = obs     # line() sends the observed trace
+        return obs
 
     def run_case(self, case):
         import boltons.fileutils as fu
@@ -491,6 +594,7 @@ class C05(Property):
     def one_save(self, fu, d, dest, kw, ops, raises, plan, txt, rel=None, chdir_to=None, holder=None):
         partname = kw.get('part_file') or PART
         spy = Spy5(dest, plan=plan)
+        spy.part_path = os.path.join(d, partname)     # the name the part file must have (roles of failed / early calls)
         out = 'ok'
         mk = BODY_EXC.get(raises)
         body_exc = mk() if mk else None
@@ -570,9 +674,24 @@ class C05(Property):
         return {'out': out, 'calls': spy.n, 'dest': look(dest), 'part': look(os.path.join(d, partname)),
                 'extra': [n for n in names if n not in (DEST, partname)], 'log': log, 'pub': pub, 'pub_index': pub_index,
                 'created': created, 'unlink_faulted': unlink_faulted, 'faults': faults, 'appear_at': appear_at,
-                'fault_cls': fault_cls, 'closed_by_body': closed_by_body}
+                'fault_cls': fault_cls, 'closed_by_body': closed_by_body, 'trace': spy.observations()}
 
     def render(self, case, obs):
+        """what an accepted, executable trace must give: the REAL destination and part file"""
+        self.flush_ref()
+
+        def f(x):
+            return '-' if x is None else '%d:%s' % (x[0], x[1])
+
+        def half(o):
+            s = 'acc=0 exec=ok dest=%s part=%s' % (f(o['dest']), f(o['part']))
+            if o['extra']:
+                s += ' extra=' + ','.join(o['extra'])      # the model knows two names only
+            return s
+        return half(obs['first']) + ' | ' + half(obs['retry'])
+
+    def render_ref(self, obs):
+        """the round-2 rendering (exception class / errno, number of calls, destination, part file) compared with runScript"""
         def f(x):
             return '-' if x is None else '%d:%s' % (x[0], x[1])
 
